@@ -17,13 +17,6 @@ builders and the leaf-only certificate.
 namespace Rare.C09
 open Rare Rare.Expr
 
-/-- The meaning of function names, possibly depending on the match context. -/
-abbrev Sem := Ctx → List Char → List Bytes → Bytes
-
-/-- The spec environment of a model context under `sem`. -/
-def envC (sem : Sem) (ctx : Ctx) : Env :=
-  { getMatch := fun n => ctx.getMatch n, getKey := ctx.getKey, fn := sem ctx }
-
 theorem envC_const (fn : List Char → List Bytes → Bytes) (ctx : Ctx) : envC (fun _ => fn) ctx = envOf ctx fn := rfl
 
 /-- `stage` denotes the tree `e`. -/
